@@ -260,6 +260,7 @@ func Run(c *engine.Ctx) {
 		idNames = saved
 	}
 	everyAlgorithm(c)
+	purlTypeQueries(c)
 	lookups(c, idNames)
 	afterMutation(c)
 	wide(c)
@@ -875,4 +876,68 @@ func members(nl *sbom.NodeList, got []*sbom.Node) bool {
 		}
 	}
 	return true
+}
+
+// purlTypeQueries: the purl type as a value class. A list holds one node per type of a menu - the characters the purl
+// specification allows in a type (letters, digits, '.', '+', '-'), the characters that mean something to pattern
+// languages (regular expressions, globs, format strings, percent escapes), letter case, separators - in both spellings
+// of the scheme (pkg:t/ and pkg:/t/); every type of the menu and a few partial ones are asked for. The answer is
+// precisely the nodes whose purl starts with that scheme and type.
+func purlTypeQueries(c *engine.Ctx) {
+	c.Group("purl-type-queries")
+	types := []string{"apk", "a.b", "axb", "a+b", "aab", "ab", "c++", "c", "a-b", "a*", "a?b", "[a]", "a|b", "(a)", "a\\b", "a$", "^a", "A.B", "a%2eb", "a/b", "%s", "a b", "é", "a.b.c", "..", "a{2}", "\\d", "a,b"}
+	queries := append(append([]string{}, types...), ".", ".*", "a.", ".b", "a", "b", "+", "*", "?", "a.*", "[a-z]+", "a%", "", " ")
+	c.Bound("purl-type-queries", fmt.Sprintf("one list with two nodes per purl type of a menu of %d (characters the purl specification allows, characters pattern languages give a meaning to, case, separators; both spellings of the scheme) x %d queries x {list as built, reversed}", len(types), len(queries)))
+	build := func(rev bool) *sbom.NodeList {
+		nl := &sbom.NodeList{}
+		for i, ty := range types {
+			for j, pre := range []string{"pkg:", "pkg:/"} {
+				n := &sbom.Node{Id: fmt.Sprintf("n%d-%d", i, j), Name: ty, Identifiers: map[int32]string{int32(sbom.SoftwareIdentifierType_PURL): pre + ty + "/ns/name@1"}}
+				nl.Nodes = append(nl.Nodes, n)
+			}
+		}
+		nl.Nodes = append(nl.Nodes, &sbom.Node{Id: "no-purl", Name: "no-purl"})
+		if rev {
+			for i, j := 0, len(nl.Nodes)-1; i < j; i, j = i+1, j-1 {
+				nl.Nodes[i], nl.Nodes[j] = nl.Nodes[j], nl.Nodes[i]
+			}
+		}
+		return nl
+	}
+	for qi := range queries {
+		for _, rev := range []bool{false, true} {
+			qi, rev := qi, rev
+			c.Case(func() any { return map[string]any{"group": "purl-type-queries", "query": queries[qi], "reversed": rev} }, func(t *engine.T) *engine.Violation {
+				nl := build(rev)
+				pt := queries[qi]
+				got := nl.GetNodesByPurlType(pt)
+				t.Transitions(1)
+				t.Validated(1)
+				var gotN []*sbom.Node
+				if got != nil {
+					gotN = got.Nodes
+				}
+				if !members(nl, gotN) {
+					return engine.Violate("lookup-purltype", "membership", "GetNodesByPurlType(%q) returned foreign nodes", pt)
+				}
+				if pt == "" {
+					t.Outcome("purl-type-query-empty")
+					return nil
+				}
+				var want []*sbom.Node
+				for _, x := range nl.Nodes {
+					pu := string(x.Purl())
+					if strings.HasPrefix(pu, "pkg:"+pt+"/") || strings.HasPrefix(pu, "pkg:/"+pt+"/") {
+						want = append(want, x)
+					}
+				}
+				if ids(gotN) != ids(want) {
+					return engine.Violate("lookup-purltype", "type-characters", "GetNodesByPurlType(%q) = {%s}, want {%s}", pt, ids(gotN), ids(want))
+				}
+				t.State(fmt.Sprintf("ptq|%s|%v", pt, rev))
+				t.Outcome(fmt.Sprintf("purl-type-query-%d", len(want)))
+				return nil
+			})
+		}
+	}
 }
